@@ -3,7 +3,7 @@ from . import core
 
 PROP_FILE = 'Properties/C01.v'
 THEOREMS = ['C01_output_atoms_partial', 'C01_optional_paren_sound', 'C01_markup_source_lines',
-            'C01_flow_stylist_conserves', 'C01_plain_stylist_conserves', 'C01_list_stylist_conserves', 'C01_chain_printer_conserves', 'C01_chain_builder_attaches_after_a_body']
+            'C01_flow_stylist_conserves', 'C01_plain_stylist_conserves', 'C01_list_stylist_conserves', 'C01_chain_printer_conserves', 'C01_chain_builder_attaches_after_a_body', 'C01_chain_stylist_conserves']
 
 
 def run(tier, seed, replay=None):
